@@ -22,6 +22,7 @@ CONSTANTS
     MaxBad,    \* bound on rejected puts per history
     PutTopics, \* topic sets a valid Put may use
     SubTopics, \* topic sets a Replay may use
+    GCIChanges,\* values the owner may assign to GCInterval in mid-history ({}: it stays as configured)
     AsFound    \* TRUE: findIDInQueue as in the pinned tree (defect D3)
 
 HUGE == 1000000   \* stands for 2^64-1 (TLC integers are 32 bit)
@@ -38,17 +39,18 @@ VARIABLES
     nextID,   \* *currentID (automatic IDs)
     now,      \* injected clock
     lastGC,   \* -1 = zero time
+    gci,      \* ValidReplayer.GCInterval now: an exported field, the owner may change it between calls (starts as cfg.gci)
     log,      \* abstract: sequence of all successful puts [tp, exp]
     gone,     \* abstract: number of log entries that were evicted / collected
     hist      \* history of operations (generation only)
 
-vars == <<cfg, bad, pq, buf, cap, head, tail, count, nextID, now, lastGC, log, gone, hist>>
+vars == <<cfg, bad, pq, buf, cap, head, tail, count, nextID, now, lastGC, gci, log, gone, hist>>
 
 Kind == cfg.kind
 N    == cfg.n
 Auto == cfg.auto
 TTL  == cfg.ttl
-GCI  == cfg.gci
+GCI  == gci
 
 \* The history is an observation, and so are the topics and expiry times of log entries that left the
 \* ring (the retained ones are in buf, see RingIsLog): two histories reaching the same replayer state
@@ -57,7 +59,7 @@ GCI  == cfg.gci
 \* distinct *transition* of the ring is exported, not only every distinct state: an implementation slip
 \* in one operation (say, a collection whose expired run wraps around the end of the buffer) shows
 \* right after that operation, whatever shorter history leads to the same state.
-View == <<cfg, bad, pq, buf, cap, head, tail, count, nextID, now, lastGC, Len(log), gone>>
+View == <<cfg, bad, pq, buf, cap, head, tail, count, nextID, now, lastGC, gci, Len(log), gone>>
 Shape(op) == <<head, tail, count, cap, op>>
 
 Min(a, b) == IF a < b THEN a ELSE b
@@ -68,7 +70,7 @@ Init ==
     /\ cap = IF Kind = "finite" THEN N ELSE 0
     /\ buf = [i \in 0..(cap - 1) |-> None]
     /\ head = 0 /\ tail = 0 /\ count = 0
-    /\ nextID = 0 /\ now = 0 /\ lastGC = -1
+    /\ nextID = 0 /\ now = 0 /\ lastGC = -1 /\ gci = cfg.gci
     /\ log = <<>> /\ gone = 0 /\ hist = <<>>
 
 -----------------------------------------------------------------------------
@@ -225,7 +227,7 @@ PutOK(tp) ==
           /\ nextID' = IF Auto THEN nextID + 1 ELSE nextID
           /\ hist' = Rec([op |-> "put", tp |-> tp, res |-> "ok", k |-> Len(log) + 1])
     /\ pq' = Shape("put")
-    /\ UNCHANGED <<cfg, bad, now>>
+    /\ UNCHANGED <<cfg, bad, now, gci>>
 
 \* a rejected Put: "notopic" (no topics), "idmismatch" (manual without ID / automatic with ID)
 PutBad(why) ==
@@ -241,26 +243,35 @@ PutBad(why) ==
                /\ gone' = IF didGC THEN Max(gone, Cardinality({j \in 1..Len(log) : ~(log[j].exp > now)})) ELSE gone
        ELSE UNCHANGED <<buf, cap, head, tail, count, lastGC, gone>>
     /\ hist' = Rec([op |-> "put", tp |-> {}, res |-> why, k |-> 0])
-    /\ UNCHANGED <<cfg, nextID, now, log>>
+    /\ UNCHANGED <<cfg, nextID, now, log, gci>>
 
 Tick(d) ==
     /\ Kind = "valid" /\ now + d <= MaxNow
     /\ now' = now + d /\ pq' = Shape("tick")
     /\ hist' = Rec([op |-> "tick", tp |-> {}, res |-> "", k |-> d])
-    /\ UNCHANGED <<cfg, bad, buf, cap, head, tail, count, nextID, lastGC, log, gone>>
+    /\ UNCHANGED <<cfg, bad, buf, cap, head, tail, count, nextID, lastGC, gci, log, gone>>
 
 GC ==
     /\ Kind = "valid"
     /\ SetQ(DoGC(Q, now)) /\ pq' = Shape("gc")
     /\ gone' = Max(gone, Cardinality({j \in 1..Len(log) : ~(log[j].exp > now)}))
     /\ hist' = Rec([op |-> "gc", tp |-> {}, res |-> "", k |-> 0])
-    /\ UNCHANGED <<cfg, bad, nextID, now, lastGC, log>>
+    /\ UNCHANGED <<cfg, bad, nextID, now, lastGC, gci, log>>
+
+\* the owner assigns another GCInterval: from the next Put on, a collection is due when that much time has passed since the last
+\* collection point (the interval in force when that point was recorded does not matter)
+SetGCI(g) ==
+    /\ Kind = "valid" /\ g # gci
+    /\ gci' = g /\ pq' = Shape("setgci")
+    /\ hist' = Rec([op |-> "setgci", tp |-> {}, res |-> "", k |-> g])
+    /\ UNCHANGED <<cfg, bad, buf, cap, head, tail, count, nextID, now, lastGC, log, gone>>
 
 Next ==
     \/ \E tp \in PutTopics : PutOK(tp)
     \/ \E why \in {"notopic", "idmismatch"} : PutBad(why)
     \/ \E d \in {1, 2} : Tick(d)
     \/ GC
+    \/ \E g \in GCIChanges : SetGCI(g)
 
 Spec == Init /\ [][Next]_vars
 
@@ -313,7 +324,7 @@ AutoIDs == Auto => nextID = Len(log)
 Probes == { [lid |-> p, tp |-> tp, allowed |-> Allowed(p, tp, now)] : p \in Presented, tp \in SubTopics }
 
 ExportRec ==
-    [ kind |-> Kind, n |-> N, auto |-> Auto, ttl |-> TTL, gci |-> GCI,
+    [ kind |-> Kind, n |-> N, auto |-> Auto, ttl |-> TTL, gci |-> cfg.gci,
       ops |-> hist, now |-> now, probes |-> Probes,
       retained |-> {j \in 1..Len(log) : j > gone},
       dropped |-> {j \in 1..Len(log) : j <= gone},
